@@ -103,6 +103,11 @@ async fn read_n_responses(s: &mut tokio::io::ReadHalf<TcpStream>, log: &mut Recv
 }
 
 async fn send_cut(w: &mut tokio::io::WriteHalf<TcpStream>, bytes: &[u8], cuts: &[usize], gap_us: u64) -> bool {
+    send_cut_timed(w, bytes, cuts, gap_us, tokio::time::Instant::now(), &mut Vec::new()).await
+}
+
+/// `send_cut`, also recording for every segment (end offset, virtual time just before it was written).
+async fn send_cut_timed(w: &mut tokio::io::WriteHalf<TcpStream>, bytes: &[u8], cuts: &[usize], gap_us: u64, t0: tokio::time::Instant, times: &mut Vec<(usize, u64)>) -> bool {
     let mut ends: Vec<usize> = cuts.iter().copied().filter(|&c| c > 0 && c < bytes.len()).collect();
     ends.sort_unstable();
     ends.dedup();
@@ -112,6 +117,7 @@ async fn send_cut(w: &mut tokio::io::WriteHalf<TcpStream>, bytes: &[u8], cuts: &
         if e <= start {
             continue;
         }
+        times.push((e, virt_ns(t0)));
         if w.write_all(&bytes[start..e]).await.is_err() {
             return false;
         }
@@ -221,6 +227,7 @@ async fn run_client_tk(cid: usize, c: Client, expects: Vec<Expect>, addr: Socket
     let mut alive = true;
     if c.mode == "streamed" {
         let mut all = Vec::new();
+        let mut ends_of: Vec<usize> = Vec::new();
         for (i, r) in rendered.iter().enumerate() {
             let mut r = r.clone();
             if i + 1 == rendered.len() {
@@ -229,7 +236,9 @@ async fn run_client_tk(cid: usize, c: Client, expects: Vec<Expect>, addr: Socket
                 }
             }
             all.extend(r);
+            ends_of.push(all.len());
         }
+        let mut times: Vec<(usize, u64)> = Vec::new();
         let want = expects.len();
         let cuts = c.cuts.clone();
         let gap = c.gap_us;
@@ -239,8 +248,9 @@ async fn run_client_tk(cid: usize, c: Client, expects: Vec<Expect>, addr: Socket
             // the reader fills `log` in place, so whatever it has read survives a timeout
             let reader = read_n_responses(&mut rd, &mut log, want, t0, Duration::from_secs(3600));
             tokio::pin!(reader);
+            let times_ref = &mut times;
             let writer = async {
-                let ok = send_cut(&mut wr, &all, &cuts, gap).await;
+                let ok = send_cut_timed(&mut wr, &all, &cuts, gap, t0, times_ref).await;
                 (ok, started, virt_ns(t0))
             };
             let mut reader_done = false;
@@ -265,8 +275,9 @@ async fn run_client_tk(cid: usize, c: Client, expects: Vec<Expect>, addr: Socket
             }
         }
         let (ok, a, b) = write_result;
-        for x in sent.iter_mut() {
-            *x = Some((a, b));
+        for (i, x) in sent.iter_mut().enumerate() {
+            let last = ends_of.get(i).copied().unwrap_or(0);
+            *x = Some((if last > 0 { crate::simhttp::sent_not_before(&times, last - 1, a) } else { a }, b));
         }
         alive = ok;
     } else {
@@ -287,8 +298,9 @@ async fn run_client_tk(cid: usize, c: Client, expects: Vec<Expect>, addr: Socket
             }
             let cuts: Vec<usize> = c.cuts.iter().filter(|&&x| x > offset && x < offset + bytes.len()).map(|x| x - offset).collect();
             let a = virt_ns(t0);
-            let ok = send_cut(&mut wr, &bytes, &cuts, c.gap_us).await;
-            sent[i] = Some((a, virt_ns(t0)));
+            let mut times: Vec<(usize, u64)> = Vec::new();
+            let ok = send_cut_timed(&mut wr, &bytes, &cuts, c.gap_us, t0, &mut times).await;
+            sent[i] = Some((if bytes.is_empty() { a } else { crate::simhttp::sent_not_before(&times, bytes.len() - 1, a) }, virt_ns(t0)));
             offset += rendered[i].len();
             if is_trunc {
                 break;
